@@ -628,6 +628,11 @@ func (g *Gen) expr() string {
 	case 12:
 		return "!" + g.atom()
 	}
+	if g.r.Chance(1, 6) && len(g.vars) > 0 {
+		// an assignment is an expression too: (a = {x: 1}) as a value re-types a variable in the
+		// middle of the statement that uses it
+		return "(" + g.r.Pick(g.vars) + " = " + g.lit() + ")"
+	}
 	return g.atom()
 }
 
@@ -685,6 +690,21 @@ func (g *Gen) stmt() {
 	case 3:
 		g.line(g.r.Pick([]string{"p ", "puts ", "print "}) + g.expr())
 	case 4:
+		if len(g.vars) > 0 && g.r.Chance(1, 2) {
+			// element / attribute assignment and compound updates of an existing variable
+			v := g.r.Pick(g.vars)
+			switch g.r.Intn(4) {
+			case 0:
+				g.line(v + "[" + g.atom() + "] = " + g.expr())
+			case 1:
+				g.line(v + "[" + g.r.Pick([]string{":k", ":missing", "0", "-1", "\"s\"", "1..2"}) + "] " + g.r.Pick([]string{"=", "+=", "||="}) + " " + g.expr())
+			case 2:
+				g.line(v + "." + g.r.Pick(genVarNames) + " = " + g.expr())
+			default:
+				g.line(v + " = " + g.lit()) // the variable changes its type
+			}
+			return
+		}
 		g.line(g.expr())
 	case 5:
 		g.line("# " + g.r.Pick([]string{"comment", "ti-doc: documented", "ti-for-llm: note", "TODO \"quote", ""}))
